@@ -82,6 +82,10 @@ def ex_parents():
 # ---------------------------------------------------------------------------------------------
 # attribute access on library values
 # ---------------------------------------------------------------------------------------------
+ASTROPY_CONST = {"astropy.constants.k_B.value": 1.380649e-23, "astropy.constants.m_e.value": 9.1093837139e-31, "astropy.constants.e.value": 1.602176634e-19,
+                 "astropy.constants.h.value": 6.62607015e-34, "astropy.constants.c.value": 299792458.0}
+
+
 def lib_attr(ex, obj: VLib, name: str):
     full = f"{obj.name}.{name}"
     if full in ("sys.version_info",):
@@ -93,6 +97,8 @@ def lib_attr(ex, obj: VLib, name: str):
     if full == "numpy.pi" or full == "math.pi":
         import math
         return VFloat(math.pi)
+    if full in ASTROPY_CONST:          # CODATA values as astropy.constants gives them (SI)
+        return VFloat(ASTROPY_CONST[full])
     if full == "numpy.newaxis":
         return NONE
     if full == "typing.TYPE_CHECKING":
